@@ -16,7 +16,7 @@ prop("C03", "fault_enumeration",
      "static public key or certificate bytes occur in any datagram of the wire log, handshake included. Non-trivial = script with "
      ">=1 action or a write larger than one packet; distinct by case hash.",
      ["the reader keeps up (receive queue capacity 10000 packets is never reached)", "cryptographic primitives are not attacked by search"],
-     [dict(name="channel", pkg="transport", run="^TestVerifC03Channel$", shards=dict(quick=16, thorough=16), thorough_scale=50, timeout=dict(quick=900, thorough=7200))],
+     [dict(name="channel", pkg="transport", run="^TestVerifC03Channel$", shards=dict(quick=16, thorough=16), thorough_scale=250, timeout=dict(quick=900, thorough=7200))],
      text="Generated adversary scripts over the datagrams of established sessions, with keyed payloads so that any unauthentic, "
           "duplicated, cross-delivered or lost message is visible; completeness and exact write counts on faithful / "
           "non-destructive networks; substring search of the whole wire log for plaintext markers.",
